@@ -118,6 +118,8 @@ def snap(node):
         "bexec": _exec_repr(node.body_node_executor) if kind == "f" else "-",
         "det": node._detached_parent_path,
         "has_parent": node.parent is not None,
+        "lexical_path": node.lexical_path,
+        "storage_path": str(node.as_path(root="R")),
         "parent_path": node.parent.lexical_path if node.parent is not None else None,
         "ins": [] if kind == "w" else [[k, _vrepr(c.value), bool(c.strict_hints)] for k, c in node.inputs.items()],
         "outs": [] if kind == "w" else [[k, _vrepr(c.value), bool(c.strict_hints)] for k, c in node.outputs.items()],
@@ -692,6 +694,34 @@ def _rerun(node, how):
     return steps
 
 
+def _resume(copy):
+    """what a user does after the process died while children were out with `_serialize_result`"""
+    from pyiron_workflow.nodes.composite import Composite
+
+    out = {"steps": []}
+    try:
+        # original and copy share one working directory here, a real broken process does not: what the ORIGINAL's
+        # jobs wrote is not there for the copy …
+        for n in _all_nodes(copy):
+            if not isinstance(n, Composite):
+                n._temporary_result_file.unlink(missing_ok=True)
+        for n in _all_nodes(copy):
+            if n.running and not isinstance(n, Composite):
+                # … except that each job that was out finishes on its own and leaves its result where the node
+                # will look for it
+                args, kwargs = n.run_args
+                n.on_run(*args, **kwargs)
+                out["steps"].append("job:" + n.label)
+        for n in _all_nodes(copy):
+            if isinstance(n, Composite):
+                n.running = False
+        out["res"] = _run(copy)
+    except BaseException as e:  # noqa: BLE001
+        out["res"] = "resume:" + type(e).__name__ + ":" + str(e)[:120]
+    out["state"] = _rerun_view(snap(copy))
+    return out
+
+
 def _rerun_view(s, path=""):
     p = path + "/" + s["label"]
     out = [[p, s["running"], s["failed"], [[k, v] for k, v, _ in s["outs"]], [[k, v] for k, v, _ in s["ins"]],
@@ -796,6 +826,17 @@ def run_impl(case):
         res["rounds"].append(loaded.snapshot if isinstance(loaded, _Remote) else snap(loaded))
         cur = loaded
     stats["loaded"] = int(loaded is not None)
+
+    # a broken process: the original went on to its end; the copy taken mid-run is RESUMED (the parents' `running`
+    # flags cleared, the jobs that were out have left their result files) and must reach the same end
+    n_out = sum(1 for _p, x in _walk(before) if x["running"] and not x["children"]) if mid else 0
+    # (resumed only from an IDLE point with exactly one job out: with deliveries still queued the library's resume
+    # drops them, with two jobs out it never ends — `running_children` is mutated while iterated —: both are the
+    # subject of C08 and were reported there)
+    if (case.get("resume") and mid is not None and loaded is not None and not path and case.get("snap_at") == -1
+            and n_out == 1):
+        res["resume"] = {"orig": _rerun_view(snap(root)), "copy": _resume(loaded)}
+        stats["resume"] = 1
 
     # run both again
     how = case.get("rerun")
@@ -1013,6 +1054,8 @@ def _compare(before, after, child_alone):
             return _fail("output-values", f"{p}: {b['outs']} -> {a['outs']}")
         if (b["running"], b["failed"]) != (a["running"], a["failed"]):
             return _fail("flags", f"{p}: running/failed {b['running']},{b['failed']} -> {a['running']},{a['failed']}")
+        if b["recv"] != a["recv"]:
+            return _fail("trigger-state", f"{p}: what the all-of trigger has heard: {b['recv']} -> {a['recv']}")
         if b.get("parent_ok", True) and not a.get("parent_ok", True):
             return _fail("ownership", f"{p}: listed by its parent but its own parent is {a['det']!r}/None")
     for p in B:
@@ -1054,6 +1097,8 @@ def _compare(before, after, child_alone):
     else:
         if after["has_parent"] != before["has_parent"] or (after["det"] != before["det"] and not before["has_parent"]):
             return _fail("root", f"parent/detached path changed: {before['det']} -> {after['det']}")
+        if not before["has_parent"] and before.get("lexical_path") != after.get("lexical_path"):
+            return _fail("root", f"lexical path {before.get('lexical_path')} -> {after.get('lexical_path')}")
     return None
 
 
@@ -1064,6 +1109,17 @@ def oracle(case, impl):
     child_alone = bool(before["has_parent"]) and not impl.get("inplace")
     # the rounds that did come back first (a later failure to load may only be their consequence)
     for r, after in enumerate(impl["rounds"]):
+        if r >= 1 and child_alone:
+            # a lone child saved and loaded AGAIN: now it is the root that is stored; where it lived (detached path,
+            # hence lexical path and storage location) is part of what it is
+            prev = impl["rounds"][r - 1]
+            g = _compare(prev, after, False)
+            if g is None and (prev["lexical_path"], prev["storage_path"]) != (after["lexical_path"], after["storage_path"]):
+                g = _fail("root", f"lexical path {prev['lexical_path']} -> {after['lexical_path']}, storage "
+                                  f"{prev['storage_path']} -> {after['storage_path']}")
+            if g is not None:
+                g["detail"] = f"generation {r} -> {r + 1} ({case['backend']}): " + g["detail"]
+                return [g]
         f = _compare(before, after, child_alone)
         if f is not None:
             f["detail"] = f"round {r + 1} ({case['backend']}): " + f["detail"]
@@ -1078,6 +1134,14 @@ def oracle(case, impl):
             return [_fail("dump-error", f"the graph could not be pickled: {e}")]
         return [_fail("load-error", f"round {e['round']}: {e['cls']}: {e['msg']}", error=e["cls"],
                       cause=_cause(before, e["round"], case["backend"]))]
+    rs = impl.get("resume")
+    if rs:
+        o, c = rs["orig"], rs["copy"]["state"]
+        strip = lambda st: [x[:4] for x in st]  # path, running, failed, outputs  # noqa: E731
+        if not str(rs["copy"].get("res", "")).startswith("ok") or strip(o) != strip(c):
+            d = next(((x, y) for x, y in zip(strip(o), strip(c)) if x != y), None)
+            return [_fail("resume-outputs", f"the copy taken mid-run, resumed ({rs['copy'].get('steps')}, "
+                                            f"{rs['copy'].get('res')}), does not reach the original's end: {d}")]
     rr = impl.get("rerun")
     if rr:
         # did a composite that remembered its last run come back without that memory?
@@ -1486,6 +1550,30 @@ def _exhaustive():
 EXHAUSTIVE = {"quick": False, "thorough": True}
 
 
+def _resume_case(rng):
+    """DAG workflow with joins; some nodes out on a controllable executor leaving their result in a file; pickled at
+    an idle point of the run; the copy is resumed"""
+    n = rng.randint(3, 5)
+    kids, data = [], []
+    for j in range(n):
+        c = _leafF(f"n{j}", (7 * j + rng.randrange(5)) % 28)
+        if j >= 1:
+            ups = rng.sample(range(j), k=min(j, rng.choice([1, 2, 2])))
+            for slot, u in zip(("a", "b"), ups):
+                data.append([c["label"], slot, ["child", f"n{u}", "o"]])
+        kids.append(c)
+    outs = rng.sample(range(n), k=1)
+    for j in outs:
+        kids[j]["exec"] = "ctl"
+        kids[j]["serialize"] = True
+        kids[j]["nocache"] = rng.random() < 0.5
+    root = {"kind": "wf", "label": "w", "spec": {"children": kids, "data": data}}
+    return {"root": root, "state": "ctlmid", "mode": "resume", "ctl": True, "resume": True,
+            "schedule": [rng.choice([0, 0, 1, 2]) for _ in range(12)], "snap_at": -1,
+            "backend": rng.choice(["pickle", "cloudpickle", "file"]), "rounds": 1, "target": [], "fail": [],
+            "has_executor": True}
+
+
 def _hint_case(rng):
     """typed nodes whose strictness changes between connecting and saving"""
     kids = [{"label": "a", "kind": "TO", "const": {}}, {"label": "b", "kind": "T", "const": {}, "nonstrict": []},
@@ -1524,6 +1612,9 @@ def gen_cases(rng, tier):
         r = k % 20
         if k % 25 == 7:
             yield _hint_case(rng)
+            continue
+        if k % 25 == 13:
+            yield _resume_case(rng)
             continue
         if r < 10:
             mode = "atmost1"
@@ -1649,6 +1740,13 @@ def corpus():
                "mode": "corpus"}
     yield {"root": deep, "state": "run", "backend": "file", "rounds": 1, "target": ["m", "m", "c"], "inplace": True,
            "fail": [], "mode": "corpus"}
+    # a broken process resumed: y ran, x is out on the executor (result to file), the join j has heard y
+    rz = {"kind": "wf", "label": "w", "spec": {"children": [
+        _leafF("y", 1, a=1), dict(_leafF("x", 2, a=2), exec="ctl", serialize=True, nocache=True), _leafF("j", 3)],
+        "data": [["j", "a", ["child", "x", "o"]], ["j", "b", ["child", "y", "o"]]]}}
+    for be in ("pickle", "file"):
+        yield {"root": rz, "state": "ctlmid", "ctl": True, "resume": True, "schedule": [0, 0, 0, 0], "snap_at": -1,
+               "backend": be, "rounds": 1, "target": [], "fail": [], "has_executor": True, "mode": "corpus"}
     # a child on its own, nested, all three back ends
     for be in ("pickle", "cloudpickle", "file"):
         yield {"root": m1, "state": "run", "backend": be, "rounds": 2, "target": ["m", "c"], "fail": [], "mode": "corpus"}
